@@ -4,6 +4,7 @@ CONSTANTS
   FixFinal = TRUE
   FixSpillMin = TRUE
   FixLeftId = TRUE
+  FixEmptyMerge = TRUE
   ShapeSet = "five"
   Sizes = {1, 3, 7}
   Spills = {0, 3, 6}
